@@ -177,3 +177,32 @@ def activity(spec):
         return False, True
     y = spec["params"]["y"]
     return y < 0, y < 1
+
+
+# ----------------------------------------------------------------- Levy copula models
+@st.composite
+def copula_spec(draw):
+    t = draw(st.sampled_from(["clayton", "clayton", "clayton", "independent", "dependent"]))
+    if t == "clayton":
+        return {"type": t, "theta": draw(_f(0.2, 5.0)),
+                "eta": draw(st.one_of(st.sampled_from([0.0, 1.0]), _f(0.0, 1.0)))}
+    return {"type": t}
+
+
+def build_copula(cspec):
+    from rpylib.distribution.levycopula import (ClaytonCopula, DependentComponentsCopula,
+                                                IndependentComponentsCopula)
+
+    if cspec["type"] == "clayton":
+        return ClaytonCopula(theta=cspec["theta"], eta=cspec["eta"])
+    if cspec["type"] == "independent":
+        return IndependentComponentsCopula()
+    return DependentComponentsCopula()
+
+
+def build_copula_model(spec):
+    """spec = {"margins": [model specs], "copula": copula spec}; margins all exponential or none."""
+    from rpylib.model.levycopulamodel import LevyCopulaModel
+
+    models = [build_model(m) for m in spec["margins"]]
+    return LevyCopulaModel(models=models, copula=build_copula(spec["copula"]))
